@@ -110,6 +110,8 @@ type Interp struct {
 	out     []Value // scratch
 	writes  int
 	mapPerm bool
+	sch     *sched
+	numCPU  int
 }
 
 type deferred struct {
@@ -413,7 +415,7 @@ func (ip *Interp) callFunction(fn *ssa.Function, args []Value) Value {
 	if h := ip.harnessAPI(fn); h != nil {
 		return h(ip, fn, args)
 	}
-	if ip.initMode && ip.depth > 0 && fn.Name() == "init" && fn.Signature.Recv() == nil && len(args) == 0 && fn.Pkg != nil && fn == fn.Pkg.Func("init") {
+	if ip.initMode && *ip.depthPtr() > 0 && fn.Name() == "init" && fn.Signature.Recv() == nil && len(args) == 0 && fn.Pkg != nil && fn == fn.Pkg.Func("init") {
 		// dependency initialisers run lazily, on first access to their globals
 		return nil
 	}
@@ -421,11 +423,12 @@ func (ip *Interp) callFunction(fn *ssa.Function, args []Value) Value {
 	if len(fn.Blocks) == 0 {
 		unsupported("call to function without body: %s", name)
 	}
-	ip.depth++
-	if ip.depth > maxCallDepth {
+	dp := ip.depthPtr()
+	*dp++
+	if *dp > maxCallDepth {
 		panic(pathEnd{"budget", "call depth exceeded in " + name})
 	}
-	defer func() { ip.depth-- }()
+	defer func() { *dp-- }()
 	ip.funcs[fi.descr] = true
 	fr := &frame{ip: ip, fn: fn, fi: fi, env: make([]Value, fi.n)}
 	for i, p := range fn.Params {
@@ -443,11 +446,12 @@ func (ip *Interp) callFunction(fn *ssa.Function, args []Value) Value {
 func (ip *Interp) callClosure(c *Closure, args []Value) Value {
 	fn := c.Fn
 	fi := ip.pr.info(fn)
-	ip.depth++
-	if ip.depth > maxCallDepth {
+	dp := ip.depthPtr()
+	*dp++
+	if *dp > maxCallDepth {
 		panic(pathEnd{"budget", "call depth exceeded"})
 	}
-	defer func() { ip.depth-- }()
+	defer func() { *dp-- }()
 	ip.funcs[fi.descr] = true
 	fr := &frame{ip: ip, fn: fn, fi: fi, env: make([]Value, fi.n)}
 	for i, p := range fn.Params {
@@ -463,6 +467,13 @@ func (ip *Interp) callClosure(c *Closure, args []Value) Value {
 	fr.block = fn.Blocks[0]
 	fr.run()
 	return fr.result
+}
+
+func (ip *Interp) depthPtr() *int {
+	if ip.sch != nil && ip.sch.cur != nil {
+		return &ip.sch.cur.depth
+	}
+	return &ip.depth
 }
 
 // call dispatches on the dynamic function value.
@@ -553,7 +564,7 @@ func (fr *frame) exec(instr ssa.Instruction) bool {
 		fr.set(in, ip.binop(in.Op, in.X.Type(), fr.get(in.X), fr.get(in.Y), in))
 	case *ssa.Call:
 		fn, args := fr.prepareCall(&in.Call)
-		if ip.initMode && ip.depth <= 1 {
+		if ip.initMode && *ip.depthPtr() <= 1 {
 			// tolerant: a failing initialiser call yields an opaque value
 			var res Value
 			func() {
@@ -629,7 +640,8 @@ func (fr *frame) exec(instr ssa.Instruction) bool {
 		fn, args := fr.prepareCall(&in.Call)
 		fr.defers = append(fr.defers, deferred{fn, args})
 	case *ssa.Go:
-		unsupported("go statement in %s (goroutines are not interpreted)", fr.fn)
+		fn, args := fr.prepareCall(&in.Call)
+		ip.spawn(fn, args, fr.fn.String())
 	case *ssa.MakeChan:
 		n := int(ip.concInt(fr.get(in.Size)))
 		fr.set(in, &ChanV{cap: n, elem: in.Type().Underlying().(*types.Chan).Elem()})
@@ -690,7 +702,7 @@ func (fr *frame) exec(instr ssa.Instruction) bool {
 		}
 		fr.set(in, &Closure{Fn: in.Fn.(*ssa.Function), Env: env})
 	case *ssa.Select:
-		unsupported("select in %s", fr.fn)
+		fr.set(in, ip.selectOp(in, fr))
 	default:
 		unsupported("instruction %T in %s", instr, fr.fn)
 	}
